@@ -1,9 +1,519 @@
 package main
 
+import (
+	"fmt"
+	"go/constant"
+	"go/token"
+	"go/types"
+	"strings"
+
+	"golang.org/x/tools/go/ssa"
+)
+
 func init() { register("C17", checkC17) }
 
 func checkC17(p *Prog, r *Report) {
+	r.rule("R1 kind table: zero values (typed nil pointers for nullable kinds), name tables and %T classification (see C01), and the Set gate of SoftResource on kind and nullability")
+	r.rule("C17.zero-fill: SoftResource.check stores, for every attribute without a value, GetZeroValue(<that attribute's kind>, <that attribute's nullability>), and for every relationship without a value \"\" when it is to-one and an empty []string otherwise")
+	r.rule("C17.get-returns-stored: SoftResource.Get returns GetID() for \"id\", the value found in the data map under the key for fields of the type, and nil otherwise - nothing is transformed on the way out")
+	r.rule("C17.set-stores-given: SoftResource.Set stores the very value it was given (or the kind's typed nil for an untyped nil on a nullable attribute) and writes nothing reachable from that value (mod analysis: no write rooted at the value parameter); Wrapper.setField hands reflect.Value.Set exactly reflect.ValueOf(v) (or the zero value of the field's type for nil)")
+	r.rule("C17.id: both implementations special-case \"id\" in Get and Set (Get returns GetID(), Set stores the string and returns)")
+	r.rule("C17.tag-agreement: Wrapper.getField and setField locate the field by comparing the key with the json tag")
+	r.rule("C17.equal (scenario evaluation of Equal): with one to-many relationship whose two values differ, Equal returns false unless both are empty - in particular when exactly one of them is empty; EqualStrict is the ID comparison followed by Equal")
+	r.rule("C17.equal-names (merge-join key check): where Equal walks two name-sorted lists in lock-step, the names at the same position are compared before the values")
+	r.assume("reflect.Value.Set/Interface store and return the value they are given; reflect.DeepEqual is value equality")
+	r.notCovered("reflexivity and symmetry of the equality helpers as value-level laws; arbitrary Set histories on a Wrapper beyond the single store (delegated to reflect)")
+
 	kt := buildKindTable(p, r)
 	kt.checkNameTables(r)
-	kt.checkUnmarshalTypes(r)
+	checkSetGate(p, r, kt)
+	checkZeroFill(p, r)
+	checkSoftGetSet(p, r)
+	checkWrapperGetSet(p, r)
+	checkEqualHelpers(p, r)
+}
+
+func checkZeroFill(p *Prog, r *Report) {
+	f := p.Fn("(*SoftResource).check")
+	if f == nil {
+		r.fail("anchor (*SoftResource).check not found")
+		return
+	}
+	r.fn(funcName(f))
+	nAttr, nRel := 0, 0
+	eachInstr(f, func(ins ssa.Instruction) {
+		mu, ok := ins.(*ssa.MapUpdate)
+		if !ok {
+			return
+		}
+		mt := mu.Map.Type().Underlying().(*types.Map)
+		if !isEmptyIface(mt.Elem()) {
+			return
+		}
+		// attribute zero: GetZeroValue(X.Type, X.Nullable) with X the attribute whose Name is the key
+		if c, _ := callOf(mu.Value); c != nil {
+			if g := c.Common().StaticCallee(); g != nil && g.Name() == "GetZeroValue" {
+				nAttr++
+				tb, tf, ok1 := fieldLoad(c.Common().Args[0])
+				nb, nf, ok2 := fieldLoad(c.Common().Args[1])
+				kb, kf, ok3 := fieldLoad(mu.Key)
+				same := func(a, b ssa.Value) bool {
+					if a == b {
+						return true
+					}
+					// loads of the same map element attrs[i]
+					la, ok1 := a.(*ssa.Lookup)
+					lb, ok2 := b.(*ssa.Lookup)
+					return ok1 && ok2 && la.Index == lb.Index
+				}
+				good := ok1 && ok2 && ok3 && tf == "Type" && nf == "Nullable" && kf == "Name" && same(tb, nb) && same(tb, kb)
+				r.decide(good, "C17.zero-fill", "check:attribute-zero", p.pos(mu.Pos()), "data[attr.Name] = GetZeroValue(attr.Type, attr.Nullable) for the same attribute",
+					"a missing attribute is not initialised with GetZeroValue of its own kind and nullability")
+			}
+			return
+		}
+		// relationship zero
+		var ts string
+		if mi, ok := mu.Value.(*ssa.MakeInterface); ok {
+			ts = fmtTypeString(mi.X.Type())
+			toOne := 0
+			for _, ef := range expandFacts(factsAt(mu.Block())) {
+				if _, fl, ok := fieldLoad(ef.Cond); ok && fl == "ToOne" {
+					if ef.Truth {
+						toOne = 1
+					} else {
+						toOne = -1
+					}
+				}
+			}
+			if toOne == 0 {
+				return
+			}
+			nRel++
+			good := false
+			if toOne == 1 {
+				s, isC := constString(mi.X)
+				good = ts == "string" && isC && s == ""
+			} else {
+				good = ts == "[]string" && valKind(mi.X) == "empty"
+				if sl, ok := mi.X.(*ssa.Slice); ok {
+					if al, ok := sl.X.(*ssa.Alloc); ok {
+						if at, ok := deref(al.Type()).Underlying().(*types.Array); ok && at.Len() == 0 {
+							good = ts == "[]string"
+						}
+					}
+				}
+			}
+			r.decide(good, "C17.zero-fill", fmt.Sprintf("check:relationship-zero:toOne=%v", toOne == 1), p.pos(mu.Pos()), "\"\" for to-one, empty []string for to-many",
+				"a missing relationship is not initialised with \"\" (to-one) / an empty []string (to-many): got a "+ts)
+		}
+	})
+	r.floor("attribute zero stores in check", nAttr, 1)
+	r.floor("relationship zero stores in check", nRel, 2)
+}
+
+func checkSoftGetSet(p *Prog, r *Report) {
+	get, set := p.Fn("(*SoftResource).Get"), p.Fn("(*SoftResource).Set")
+	if get == nil || set == nil {
+		r.fail("anchors (*SoftResource).Get / Set not found")
+		return
+	}
+	r.fn(funcName(get))
+	r.fn(funcName(set))
+	// Get: each return is GetID() boxed (under key == "id"), nil, or the value of a lookup data[key]
+	eachInstr(get, func(ins ssa.Instruction) {
+		ret, ok := ins.(*ssa.Return)
+		if !ok || len(ret.Results) != 1 {
+			return
+		}
+		v := ret.Results[0]
+		key := "Get:" + p.describe(ret)
+		switch {
+		case isNilConst(v):
+			r.ok("C17.get-returns-stored", key, p.pos(ret.Pos()), "nil for names outside the type")
+		default:
+			good := false
+			why := ""
+			if mi, ok := v.(*ssa.MakeInterface); ok {
+				if c, _ := callOf(mi.X); c != nil && c.Common().StaticCallee() != nil && c.Common().StaticCallee().Name() == "GetID" {
+					idFact := false
+					for _, ef := range expandFacts(factsAt(ret.Block())) {
+						if bo, ok := ef.Cond.(*ssa.BinOp); ok && bo.Op == token.EQL && ef.Truth {
+							if s, ok := constString(bo.Y); ok && s == "id" && bo.X == ssa.Value(get.Params[1]) {
+								idFact = true
+							}
+						}
+					}
+					good, why = idFact, "GetID() under key == \"id\""
+				}
+			}
+			if ex, ok := v.(*ssa.Extract); ok && ex.Index == 0 {
+				if lk, ok := ex.Tuple.(*ssa.Lookup); ok && lk.Index == ssa.Value(get.Params[1]) {
+					if _, fl, ok := fieldLoad(lk.X); ok && fl == "data" {
+						good, why = true, "the value stored under the key"
+					}
+				}
+			}
+			r.decide(good, "C17.get-returns-stored", key, p.pos(ret.Pos()), why, "Get returns something other than the stored value, GetID() for \"id\", or nil")
+		}
+	})
+	// Set: what is stored
+	eachInstr(set, func(ins ssa.Instruction) {
+		mu, ok := ins.(*ssa.MapUpdate)
+		if !ok {
+			return
+		}
+		key := "Set:" + p.describe(mu)
+		good := mu.Value == ssa.Value(set.Params[2]) && mu.Key == ssa.Value(set.Params[1])
+		if !good {
+			if c, _ := callOf(mu.Value); c != nil && c.Common().StaticCallee() != nil && c.Common().StaticCallee().Name() == "GetZeroValue" {
+				// typed nil for an untyped nil on a nullable attribute
+				nilFact, nullableFact := false, false
+				for _, ef := range expandFacts(factsAt(mu.Block())) {
+					if bo, ok := ef.Cond.(*ssa.BinOp); ok && bo.Op == token.EQL && ef.Truth && bo.X == ssa.Value(set.Params[2]) && isNilConst(bo.Y) {
+						nilFact = true
+					}
+					if _, fl, ok := fieldLoad(ef.Cond); ok && fl == "Nullable" && ef.Truth {
+						nullableFact = true
+					}
+				}
+				good = nilFact && nullableFact && mu.Key == ssa.Value(set.Params[1])
+			}
+		}
+		r.decide(good, "C17.set-stores-given", key, p.pos(mu.Pos()), "stores the given value under the given key (or the typed nil for nil on a nullable attribute)",
+			"Set stores something other than the value it was given under the key it was given")
+	})
+	// id handling
+	idOK := false
+	eachInstr(set, func(ins ssa.Instruction) {
+		st, ok := ins.(*ssa.Store)
+		if !ok {
+			return
+		}
+		if fa, ok := st.Addr.(*ssa.FieldAddr); ok {
+			if _, fl := fieldRef(fa.X, fa.Field); fl == "id" {
+				for _, ef := range expandFacts(factsAt(st.Block())) {
+					if bo, ok := ef.Cond.(*ssa.BinOp); ok && bo.Op == token.EQL && ef.Truth {
+						if s, ok := constString(bo.Y); ok && s == "id" {
+							// followed by a return without further stores
+							if _, isRet := st.Block().Instrs[len(st.Block().Instrs)-1].(*ssa.Return); isRet {
+								idOK = true
+							}
+						}
+					}
+				}
+			}
+		}
+	})
+	r.decide(idOK, "C17.id", "(*SoftResource).Set:id", p.pos(set.Pos()), "Set(\"id\", v) stores the ID and returns", "SoftResource.Set does not special-case \"id\" (store the ID, then return)")
+	// mod analysis: nothing reachable from v is written
+	h := newHeap(p)
+	for _, f := range []*ssa.Function{set, p.Fn("(*Wrapper).Set")} {
+		if f == nil {
+			continue
+		}
+		bad := 0
+		for _, m := range h.ModsOf(f) {
+			if rootOf(m.Loc) == "P2" {
+				bad++
+				r.bad("C17.set-stores-given", fmt.Sprintf("%s:writes-argument:%s:%s", funcName(f), m.Kind, m.Loc), p.pos(m.Pos),
+					funcName(f)+" modifies the value it is given ("+m.Kind+" of "+m.Loc+" in "+m.Fn+"): "+m.Desc+" - the caller's value changes and Get no longer returns what was set")
+			}
+		}
+		if bad == 0 {
+			r.ok("C17.set-stores-given", funcName(f)+":argument-untouched", p.pos(f.Pos()), "no write rooted at the value parameter in the interprocedural write summary")
+		}
+	}
+}
+
+func checkWrapperGetSet(p *Prog, r *Report) {
+	get, set, sf, gf := p.Fn("(*Wrapper).Get"), p.Fn("(*Wrapper).Set"), p.Fn("(*Wrapper).setField"), p.Fn("(*Wrapper).getField")
+	if get == nil || set == nil || sf == nil || gf == nil {
+		r.fail("anchors of the Wrapper's Get/Set not found")
+		return
+	}
+	for _, f := range []*ssa.Function{get, set, sf, gf} {
+		r.fn(funcName(f))
+	}
+	// Get("id") -> GetID()
+	okGet := false
+	eachInstr(get, func(ins ssa.Instruction) {
+		ret, ok := ins.(*ssa.Return)
+		if !ok {
+			return
+		}
+		if mi, ok := ret.Results[0].(*ssa.MakeInterface); ok {
+			if c, _ := callOf(mi.X); c != nil && c.Common().StaticCallee() != nil && c.Common().StaticCallee().Name() == "GetID" {
+				okGet = true
+			}
+		}
+	})
+	r.decide(okGet, "C17.id", "(*Wrapper).Get:id", p.pos(get.Pos()), "Get(\"id\") returns GetID()", "Wrapper.Get does not return GetID() for \"id\"")
+	// Set("id") -> SetID then return
+	okSet := false
+	eachInstr(set, func(ins ssa.Instruction) {
+		c, ok := ins.(*ssa.Call)
+		if !ok || c.Common().StaticCallee() == nil || c.Common().StaticCallee().Name() != "SetID" {
+			return
+		}
+		if _, isRet := c.Block().Instrs[len(c.Block().Instrs)-1].(*ssa.Return); isRet {
+			okSet = true
+		}
+	})
+	r.decide(okSet, "C17.id", "(*Wrapper).Set:id", p.pos(set.Pos()), "Set(\"id\", v) calls SetID and returns", "Wrapper.Set does not return after setting the ID (it goes on to look for a field tagged \"id\")")
+	// setField: reflect.Set argument is reflect.ValueOf(v) or the zero of the field type
+	n := 0
+	eachInstr(sf, func(ins ssa.Instruction) {
+		c, ok := ins.(*ssa.Call)
+		if !ok {
+			return
+		}
+		g := c.Common().StaticCallee()
+		if g == nil || fullName(g) != "reflect.(Value).Set" {
+			return
+		}
+		n++
+		arg := c.Common().Args[1]
+		good := false
+		why := ""
+		if vc, _ := callOf(arg); vc != nil && vc.Common().StaticCallee() != nil {
+			switch fullName(vc.Common().StaticCallee()) {
+			case "reflect.ValueOf":
+				good = vc.Common().Args[0] == ssa.Value(sf.Params[2])
+				why = "stores reflect.ValueOf(v) for the given v"
+			case "reflect.(Value).Elem":
+				// zero value under v == nil
+				for _, ef := range expandFacts(factsAt(c.Block())) {
+					if bo, ok := ef.Cond.(*ssa.BinOp); ok && bo.Op == token.EQL && ef.Truth && bo.X == ssa.Value(sf.Params[2]) && isNilConst(bo.Y) {
+						good = true
+						why = "stores the field type's zero value for an untyped nil"
+					}
+				}
+			}
+		}
+		r.decide(good, "C17.set-stores-given", "setField:"+p.describe(c), p.pos(c.Pos()), why,
+			"Wrapper.setField stores something other than the value it was given (e.g. a copy or a freshly allocated pointer): a typed nil no longer reads back as nil, or Get returns a different object than was set")
+	})
+	r.floor("reflect.Set calls in setField", n, 2)
+	// tag agreement (both compare the key with the json tag): see C20.names; repeat here
+	for _, f := range []*ssa.Function{gf, sf} {
+		good := false
+		eachInstr(f, func(ins ssa.Instruction) {
+			if bo, ok := ins.(*ssa.BinOp); ok && bo.Op == token.EQL {
+				for _, pr := range [][2]ssa.Value{{bo.X, bo.Y}, {bo.Y, bo.X}} {
+					if key, ok := tagGetOf(pr[1]); ok && key == "json" && pr[0] == ssa.Value(f.Params[1]) {
+						good = true
+					}
+				}
+			}
+		})
+		r.decide(good, "C17.tag-agreement", funcName(f)+":json-tag", p.pos(f.Pos()), "field located by key == json tag", funcName(f)+" does not locate the field by its json tag")
+	}
+	// getField returns field.Interface() of the located field
+	okIface := false
+	eachInstr(gf, func(ins ssa.Instruction) {
+		ret, ok := ins.(*ssa.Return)
+		if !ok || isNilConst(ret.Results[0]) {
+			return
+		}
+		if c, _ := callOf(ret.Results[0]); c != nil && c.Common().StaticCallee() != nil && fullName(c.Common().StaticCallee()) == "reflect.(Value).Interface" {
+			okIface = true
+		}
+	})
+	r.decide(okIface, "C17.get-returns-stored", "getField:returns-Interface()", p.pos(gf.Pos()), "returns the field's value as is", "Wrapper.getField does not return the located field's value as is")
+}
+
+func checkEqualHelpers(p *Prog, r *Report) {
+	eq, eqs := p.Fn("Equal"), p.Fn("EqualStrict")
+	if eq == nil || eqs == nil {
+		r.fail("anchors Equal / EqualStrict not found")
+		return
+	}
+	r.fn("Equal")
+	r.fn("EqualStrict")
+	// EqualStrict: returns Equal(r1, r2) or false under ids differ
+	okStrict := true
+	nRet := 0
+	eachInstr(eqs, func(ins ssa.Instruction) {
+		ret, ok := ins.(*ssa.Return)
+		if !ok {
+			return
+		}
+		nRet++
+		v := ret.Results[0]
+		if cb, ok := constBool(v); ok {
+			if cb {
+				okStrict = false
+			}
+			return
+		}
+		c, _ := callOf(v)
+		if c == nil || c.Common().StaticCallee() != eq || c.Common().Args[0] != ssa.Value(eqs.Params[0]) || c.Common().Args[1] != ssa.Value(eqs.Params[1]) {
+			okStrict = false
+		}
+	})
+	r.decide(okStrict && nRet >= 2, "C17.equal", "EqualStrict:shape", p.pos(eqs.Pos()), "false when the IDs differ, otherwise Equal(r1, r2)", "EqualStrict is not 'IDs equal and Equal(r1, r2)'")
+
+	// scenario evaluation of the to-many comparison
+	for _, sc := range []struct {
+		l1, l2 bool // non-empty?
+		want   bool
+	}{{false, true, false}, {true, false, false}, {true, true, false}, {false, false, true}} {
+		got, n := evalEqualToMany(p, eq, sc.l1, sc.l2)
+		key := fmt.Sprintf("Equal:to-many:differ:nonempty(%v,%v)", sc.l1, sc.l2)
+		good := n > 0 && len(got) == 1 && got[0] == fmt.Sprint(sc.want)
+		r.decide(good, "C17.equal", key, p.pos(eq.Pos()), fmt.Sprintf("%v on %d paths", sc.want, n),
+			fmt.Sprintf("two resources whose to-many relationship values differ (first non-empty=%v, second non-empty=%v) compare as %v on %d paths; expected %v", sc.l1, sc.l2, got, n, sc.want))
+	}
+
+	// merge-join key check
+	checkMergeJoinNames(p, r, eq)
+}
+
+// evalEqualToMany: all attribute/type comparisons succeed; one to-many
+// relationship whose values are not DeepEqual, with the given emptiness.
+func evalEqualToMany(p *Prog, eq *ssa.Function, nonEmpty1, nonEmpty2 bool) ([]string, int) {
+	in := &interp{p: p, f: eq, maxPaths: 30000, maxVisit: 2, structuralNames: true}
+	in.callHook = func(st *istate, c *ssa.Call, args []*aval) *aval {
+		cc := c.Common()
+		if sc := cc.StaticCallee(); sc != nil {
+			switch fullName(sc) {
+			case "reflect.DeepEqual":
+				// the to-many values differ; attribute values are equal
+				if strings.Contains(args[0].String(), ".([]string)") || strings.Contains(args[1].String(), ".([]string)") {
+					st.notes = append(st.notes, "tomany-compared")
+					return boolv(false)
+				}
+				return boolv(true)
+			case "sort.Slice":
+				return &aval{k: aNil}
+			}
+		}
+		return nil
+	}
+	in.binopHook = func(st *istate, x *ssa.BinOp, a, b *aval) *aval {
+		as := a.String()
+		// len(v1) != 0 / len(v2) != 0 on the asserted []string values
+		if strings.HasPrefix(as, "len(") && strings.Contains(as, ".([]string)") && b.k == aConst {
+			first := strings.Contains(as, "r1.Get") || strings.Contains(as, "invoke r1")
+			ne := nonEmpty2
+			if first {
+				ne = nonEmpty1
+			}
+			n := int64(0)
+			if ne {
+				n = 2
+			}
+			st.notes = append(st.notes, "len-asked")
+			return boolv(constant.Compare(constant.MakeInt64(n), x.Op, b.c))
+		}
+		// type names, counts, ToOne flags agree; to-one values agree
+		switch x.Op {
+		case token.NEQ:
+			if strings.Contains(as, ".Name") || strings.Contains(as, "len(") || strings.Contains(as, ".ToOne") || strings.Contains(as, ".(string)") {
+				return boolv(false)
+			}
+		case token.EQL:
+			if strings.Contains(as, "Sprintf") {
+				return boolv(false)
+			}
+		}
+		return nil
+	}
+	in.forkHook = func(st *istate, cond *aval, ifi *ssa.If) string {
+		if strings.Contains(cond.String(), ".ToOne") {
+			return "to-one"
+		}
+		return ""
+	}
+	outs := in.run(map[*ssa.Parameter]*aval{eq.Params[0]: symv("r1", eq.Params[0].Type()), eq.Params[1]: symv("r2", eq.Params[1].Type())})
+	set := map[string]bool{}
+	n := 0
+	for _, o := range outs {
+		if o.loop || o.panics || o.ret == nil {
+			continue
+		}
+		asked := false
+		toOne := false
+		for _, nt := range o.notes {
+			if nt == "len-asked" || nt == "tomany-compared" {
+				asked = true
+			}
+			if nt == "to-one=true" {
+				toOne = true
+			}
+		}
+		if !asked || toOne {
+			continue
+		}
+		n++
+		if len(o.results) == 1 {
+			set[o.results[0].String()] = true
+		}
+	}
+	var out []string
+	for s := range set {
+		out = append(out, s)
+	}
+	return out, n
+}
+
+// checkMergeJoinNames: in each lock-step loop over two sorted lists (A[i],
+// B[i]) the sort keys A[i].F and B[i].F are compared.
+func checkMergeJoinNames(p *Prog, r *Report, eq *ssa.Function) {
+	// find loops that index two different slices of the same element type with the same index
+	type pair struct{ a, b *ssa.IndexAddr }
+	var pairs []pair
+	var idx []*ssa.IndexAddr
+	eachInstr(eq, func(ins ssa.Instruction) {
+		if ia, ok := ins.(*ssa.IndexAddr); ok {
+			idx = append(idx, ia)
+		}
+	})
+	// range-over-slice loops yield the element via IndexAddr(X, i); the second list is indexed explicitly with the same i
+	for _, a := range idx {
+		for _, b := range idx {
+			if a == b || a.X == b.X || !types.Identical(a.Type(), b.Type()) {
+				continue
+			}
+			if a.Index == b.Index && a.Block() == b.Block() && instrPos(a).i < instrPos(b).i {
+				pairs = append(pairs, pair{a, b})
+			}
+		}
+	}
+	n := 0
+	for _, pr := range pairs {
+		elem := structName(deref(pr.a.Type()))
+		keyField := map[string]string{"Attr": "Name", "Rel": "FromName"}[elem]
+		if keyField == "" {
+			continue
+		}
+		n++
+		// is there, in the loop body, a comparison of <elemA>.keyField with <elemB>.keyField ?
+		loop := naturalLoop(loopHeaderOf(pr.a.Block()))
+		found := false
+		eachInstr(eq, func(ins ssa.Instruction) {
+			bo, ok := ins.(*ssa.BinOp)
+			if !ok || (bo.Op != token.EQL && bo.Op != token.NEQ) || (loop != nil && !loop[bo.Block()]) {
+				return
+			}
+			_, f1, ok1 := fieldLoad(bo.X)
+			_, f2, ok2 := fieldLoad(bo.Y)
+			if ok1 && ok2 && f1 == keyField && f2 == keyField {
+				found = true
+			}
+		})
+		r.decide(found, "C17.equal-names", "Equal:lock-step:"+elem+"."+keyField, p.pos(pr.a.Pos()), "the names at the same position are compared",
+			"Equal walks the two name-sorted lists of "+elem+"s in lock-step but never compares the "+keyField+" at the same position: two resources with the same values under different field names are reported equal")
+	}
+	r.floor("lock-step loops in Equal", n, 2)
+}
+
+func loopHeaderOf(b *ssa.BasicBlock) *ssa.BasicBlock {
+	for x := b; x != nil; x = x.Idom() {
+		if l := naturalLoop(x); l != nil && l[b] {
+			return x
+		}
+	}
+	return b
 }
